@@ -29,14 +29,14 @@ Print Assumptions C22_refuted_addnode_removepod.
    create: alloc, unlock, node fetched || RemoveNode: node empty -> removed ||
    create: workload recorded on the missing node (and it can no longer be listed). *)
 Theorem C22_refuted_create_removenode :
-  quiescent_bad W2 [(OCreate "n" "x", None); (ORemoveNode "n", None)] [0; 0; 0; 0; 0; 0; 1; 1; 1; 1; 1; 1; 1; 0].
+  quiescent_bad W2 [(OCreate "n" "x", None); (ORemoveNode "n", None)] [0; 0; 0; 0; 0; 0; 1; 1; 1; 1; 1; 1; 1; 1; 1; 0].
 Proof. exact refuted_create_removenode. Qed.
 Print Assumptions C22_refuted_create_removenode.
 
 (* witness 3 (single injected failure): RemoveNode's plugin removal fails after
    the store record is gone; the rollback is empty: a resource record without node. *)
 Theorem C22_refuted_removenode_fault :
-  quiescent_bad W2 [(ORemoveNode "n", Some 4)] [0; 0; 0; 0; 0; 0; 0; 0; 0].
+  quiescent_bad W2 [(ORemoveNode "n", Some 6)] [0; 0; 0; 0; 0; 0; 0; 0; 0; 0; 0].
 Proof. exact refuted_removenode_fault. Qed.
 Print Assumptions C22_refuted_removenode_fault.
 
@@ -140,7 +140,7 @@ Print Assumptions C22_partial_single_fault.
    preserve Ref; AddNode and RemoveNode do so under every placement of a single
    injected failure, except when the failure hits AddNode's own compensation
    (fault index 2 or 3 = the plugin removal after a failed store step) or
-   RemoveNode's plugin removal (index 4, witness 3).  [RefP] is the Prop form of
+   RemoveNode's plugin removal (index 6, witness 3; indices 3 and 5 are the node-status set / delete whose results the code ignores).  [RefP] is the Prop form of
    ref_ok (C22_ref_reflect); [run1] runs one thread alone (= run_sched with the
    constant schedule, RefsIsolation.run1_sched). *)
 Theorem C22_ref_reflect : forall w, ref_ok w = true <-> RefP w.
@@ -164,7 +164,7 @@ Proof. exact add_node_ref. Qed.
 Print Assumptions C22_single_fault_add_node.
 
 Theorem C22_single_fault_remove_node : forall w n fl, RefP w -> held w = nil ->
-  let '(w', t') := run1 12 w (mkTh (remove_node n) 0 fl) in
-  finished t' = true /\ (RefP w' \/ fl = Some 4%nat).
+  let '(w', t') := run1 14 w (mkTh (remove_node n) 0 fl) in
+  finished t' = true /\ (RefP w' \/ fl = Some 6%nat).
 Proof. exact remove_node_ref. Qed.
 Print Assumptions C22_single_fault_remove_node.
